@@ -10,6 +10,7 @@ import (
 	"math/big"
 	"sort"
 	"strings"
+	"sync"
 
 	"golang.org/x/tools/go/ssa"
 )
@@ -91,6 +92,13 @@ type FnCtx struct {
 	convMemo map[string]string
 	i2fArgs, f2iArgs []string
 	forceSweep bool
+	usedSpecs map[string]bool
+	indexTerms []string
+	frameMode bool
+	rangeKeys map[int]string
+	rangeN int
+	mu sync.Mutex
+	addrFacts map[string]bool
 }
 
 type closureInfo struct {
@@ -126,6 +134,7 @@ type frame struct {
 	headerPre  map[*ssa.BasicBlock]*Heap
 	escaping map[*ssa.Alloc]bool
 	names []string
+	rangeInfo map[*ssa.Range][2]string
 }
 
 type bstate struct {
@@ -150,7 +159,7 @@ func newFnCtx(e *Engine, fn *ssa.Function) *FnCtx {
 	c := newCtx()
 	f := &FnCtx{e: e, fn: fn, c: c, hs: newHeapSpace(c), abstr: map[string]int{}, exact: map[string]int{},
 		loopFrames: map[string]*loopFrame{}, sweep: map[string]bool{}, ifaceUsed: map[string]*types.Interface{},
-		oblNames: map[string]int{}, closures: map[string]*closureInfo{}, localAllocs: map[string]bool{}, callOrd: map[string]int{}, trusted: map[string]bool{}, inlined: map[string]bool{}}
+		oblNames: map[string]int{}, closures: map[string]*closureInfo{}, localAllocs: map[string]bool{}, callOrd: map[string]int{}, trusted: map[string]bool{}, inlined: map[string]bool{}, usedSpecs: map[string]bool{}}
 	f.spec = e.specFor(fn)
 	return f
 }
@@ -356,6 +365,10 @@ func (f *FnCtx) translate() {
 		f.ifaceUsed = map[string]*types.Interface{}
 		f.callOrd = map[string]int{}
 		f.convMemo = nil
+		f.indexTerms = nil
+		f.addrFacts = nil
+		f.rangeKeys = map[int]string{}
+		f.rangeN = 0
 		f.i2fArgs, f.f2iArgs = nil, nil
 		f.notes = nil
 		f.runTop()
@@ -371,6 +384,9 @@ func (f *FnCtx) runTop() {
 	for _, p := range fn.Params {
 		v := f.freshVal("p."+p.Name(), p.Type())
 		f.assumeTypeRange(st, v)
+		if v.K == KRef {
+			f.assume(st, app(">=", v.Tm, "0"), "references existing at entry are non-negative (allocations of this call are negative)")
+		}
 		args = append(args, v)
 	}
 	var fvs []Val
@@ -386,6 +402,9 @@ func (f *FnCtx) runTop() {
 	if f.spec != nil {
 		env := fr.specEnv(st.heap, st.heap, nil)
 		for _, r := range f.spec.Requires {
+			if !f.e.active(r.Tags) {
+				continue
+			}
 			v, err := env.evalBool(r.E)
 			if err != nil {
 				f.fail("%s: requires: %v", r.Line, err)
@@ -400,6 +419,23 @@ func (f *FnCtx) runTop() {
 			}
 		}
 	}
+	// lock state at entry: nothing held, except what the contract says the caller holds
+	{
+		lk := f.ghostKey("lockheld", sortInt, true, sortInt)
+		arr := "((as const (Array Int Int)) 0)"
+		if f.spec != nil {
+			env := fr.specEnv(st.heap, st.heap, nil)
+			for _, h := range f.spec.Holds {
+				a, err := env.evalAddr(h.E)
+				if err != nil {
+					f.fail("%s: holds: %v", f.spec.Line, err)
+					continue
+				}
+				arr = app("store", arr, a, intLit(int64(h.Mode)))
+			}
+		}
+		f.assume(st, eq(f.hs.read(st.heap, lk), arr), "locks held at entry")
+	}
 	// type invariants of the receiver: assumed at entry, unless this is a constructor
 	fr.assumeTypeInvariants(st)
 	ret := fr.run(st)
@@ -410,6 +446,9 @@ func (f *FnCtx) runTop() {
 	if f.spec != nil {
 		env := fr.specEnv(ret.st.heap, fr.oldHeap, ret.vals)
 		for _, c := range f.spec.Ensures {
+			if !f.e.active(c.Tags) {
+				continue
+			}
 			v, err := env.evalBool(c.E)
 			if err != nil {
 				f.fail("%s: ensures: %v", c.Line, err)
@@ -421,6 +460,8 @@ func (f *FnCtx) runTop() {
 		}
 	}
 	fr.checkTypeInvariants(ret.st)
+	fr.checkCtorInvariants(ret)
+	fr.checkFrame(ret.st)
 }
 
 func clauseLabel(c *Clause) string {
@@ -811,7 +852,20 @@ func (fr *frame) loopSpec(h *ssa.BasicBlock) *LoopSpec {
 	if fr.spec == nil {
 		return nil
 	}
-	return fr.spec.Loops[fr.loopOrd[h]]
+	ls := fr.spec.Loops[fr.loopOrd[h]]
+	if ls == nil {
+		return nil
+	}
+	out := &LoopSpec{Ordinal: ls.Ordinal}
+	for _, c := range ls.Invariants {
+		if fr.f.e.active(c.Tags) {
+			out.Invariants = append(out.Invariants, c)
+		}
+	}
+	if ls.Decreases != nil && fr.f.e.active(ls.Decreases.Tags) {
+		out.Decreases = ls.Decreases
+	}
+	return out
 }
 
 func (fr *frame) loopHeader(h *ssa.BasicBlock, st *bstate) *bstate {
@@ -877,6 +931,21 @@ func (fr *frame) loopHeader(h *ssa.BasicBlock, st *bstate) *bstate {
 				arr = app("store", arr, o, f.c.freshConst("lh."+key, elemSort))
 			}
 			if !ok {
+				allFresh := true
+				for o := range objs {
+					if !(strings.HasPrefix(o, "alloc!") || strings.HasPrefix(o, "(- ")) {
+						allFresh = false
+					}
+				}
+				if allFresh {
+					// only objects allocated by this call are written: every pre-existing (non-negative) object keeps its value
+					old := f.hs.read(nh, key)
+					nv := f.c.freshConst("lhf."+key, srt)
+					nh = f.hs.write(nh, key, nv)
+					nh.obj = "*loop*"
+					f.global = append(f.global, fmt.Sprintf("(forall ((o Int)) (=> (>= o 0) (= (select %s o) (select %s o))))", nv, old))
+					continue
+				}
 				nh = f.hs.havocKeys(nh, map[string]bool{key: true})
 				continue
 			}
@@ -949,7 +1018,13 @@ func (f *FnCtx) definedBefore(t string, st *bstate) bool {
 			if !strings.HasPrefix(sy.name, "p.") && !strings.HasPrefix(sy.name, "fv.") && !strings.HasPrefix(sy.name, "faddr.") && !strings.HasPrefix(sy.name, "gv.") {
 				return false
 			}
+			continue
 		}
+		// not (yet) a symbol of this pass: only literals and operators are fine
+		if s == "-" || s == "+" || (s[0] >= '0' && s[0] <= '9') {
+			continue
+		}
+		return false
 	}
 	return true
 }
@@ -1022,7 +1097,11 @@ func collectWrites(f *FnCtx, h, stop *Heap, lf *loopFrame, seen map[*Heap]bool) 
 		}
 		switch h.kind {
 		case "write":
-			add(h.key, h.obj)
+			if f.frameMode && h.interf {
+				add(h.key, "interf:"+h.obj)
+			} else {
+				add(h.key, h.obj)
+			}
 			h = h.parent
 		case "havocSome":
 			for k := range h.keys {
@@ -1325,6 +1404,13 @@ func (f *FnCtx) fieldKey(obj string, t types.Type, i int) string {
 					f.hs.final[key] = true
 				}
 			}
+			for _, pd := range ts.Private {
+				for _, fn := range pd.Fields {
+					if fn == fld.Name() {
+						f.hs.private[key] = true
+					}
+				}
+			}
 		}
 	}
 	return key
@@ -1366,13 +1452,29 @@ func (f *FnCtx) faddr(obj string, t types.Type, i int) string {
 	if f.localAllocs[obj] {
 		f.localAllocs[r] = true
 	}
+	f.addrFact(r, obj)
 	return r
+}
+
+// addrFact: interior addresses of objects allocated by this call are themselves
+// outside the caller's view (negative), those of pre-existing objects are not.
+func (f *FnCtx) addrFact(r, obj string) {
+	if f.addrFacts == nil {
+		f.addrFacts = map[string]bool{}
+	}
+	if f.addrFacts[r] {
+		return
+	}
+	f.addrFacts[r] = true
+	f.global = append(f.global, eq(app("<", obj, "0"), app("<", r, "0")))
 }
 
 func (f *FnCtx) eaddr(base, idx string, t types.Type) string {
 	name := "eaddr." + structKey(t)
 	f.c.declFun(name, []string{sortInt, sortInt}, sortInt)
-	return app(name, base, idx)
+	r := app(name, base, idx)
+	f.addrFact(r, base)
+	return r
 }
 
 // load reads a value of type t at pointer value p.
